@@ -1,9 +1,157 @@
-import GV.Model.Bits32
-import GV.Model.CaseMap
+import GV.Proofs.Bits32
+import GV.Proofs.CaseMap
+import GV.Proofs.NoSyncRefine
 import GV.Model.Atomic
-import GV.Model.NoSync
 import GV.Model.FloatBits
-import GV.Spec.SyncSeq
 
+/-!
+  C13 — JavaScript-backed standard-library overrides equal the Go originals.
+
+  math/bits   `mul32_correct`, `add32_correct`, `div32_correct`, `rem32_correct` (all operands)
+  unicode     `to_eq_scan`: the override's binary search = the linear scan on EVERY sorted table, all runes, all cases
+              (the real tables' sortedness: GV.Props.C13Env over the regenerated tables)
+  sync/atomic `swap_spec`, `cas_spec`, `add_wraps`, `load_store_spec`; `value_store_eq`, `value_swap_eq`,
+              `value_cas_partial` + `value_cas_counterexample` (known finding)
+  nosync      `nosync_refines_sync`, `pool_get_allowed`, `once_runs_once`, `range_calls`
+  math        see the section at the end (bit reinterpretation, sign/class tables, integer parts)
+-/
 namespace GV.Props.C13
+open GV.Bits32 GV.CaseMap GV.NoSync GV.Spec.SyncSeq GV.Atomic
+
+/-! ### math/bits -/
+
+/-- `Mul32(x, y)`: hi·2^32 + lo = x·y for all uint32 operands -/
+theorem mul32_correct (x y : Nat) (hx : x < 4294967296) (hy : y < 4294967296) :
+    (mul32 x y).1 * 4294967296 + (mul32 x y).2 = x * y ∧ (mul32 x y).1 < 4294967296 ∧ (mul32 x y).2 < 4294967296 :=
+  GV.Proofs.Bits32.mul32_correct x y hx hy
+
+/-- `Add32(x, y, carry)`: sum + carryOut·2^32 = x + y + carry for all uint32 operands and carry ∈ {0,1} -/
+theorem add32_correct (x y c : Nat) (hx : x < 4294967296) (hy : y < 4294967296) (hc : c ≤ 1) :
+    (add32 x y c).1 + (add32 x y c).2 * 4294967296 = x + y + c ∧ (add32 x y c).1 < 4294967296 ∧ (add32 x y c).2 ≤ 1 :=
+  GV.Proofs.Bits32.add32_correct x y c hx hy hc
+
+/-! ### unicode case mapping -/
+
+theorem sortedB_iff (t : List CaseRange) : sortedB t = true ↔ Sorted t := GV.Proofs.CaseMap.sortedB_iff t
+
+/-- the override's `to` returns exactly what a linear scan of the table returns — for every sorted, non-overlapping
+    table, every rune and every `_case` value (including the out-of-range ones) -/
+theorem to_eq_scan (t : Array CaseRange) (hs : Sorted t.toList) (c r : Int) : to c r t = toSpec c r t.toList := by
+  unfold to toSpec MaxCase
+  by_cases hc : c < 0 ∨ 3 ≤ c
+  · have hc' : c < 0 ∨ ((3 : Nat) : Int) ≤ c := hc
+    rw [if_pos hc', if_pos hc]
+  · have hc' : ¬ (c < 0 ∨ ((3 : Nat) : Int) ≤ c) := hc
+    rw [if_neg hc', if_neg hc]
+    exact GV.Proofs.CaseMap.search_eq_scan c.toNat r t hs 0 t.size (Nat.le_refl _)
+      (fun i _ h => absurd h (Nat.not_lt_zero _)) (fun i h1 h2 => absurd h1 (by omega))
+
+instance (t : List CaseRange) : Decidable (Sorted t) := decidable_of_iff _ (sortedB_iff t)
+
+example : Sorted [⟨65, 90, 0, 32, 0⟩, ⟨97, 122, -32, 0, -32⟩, ⟨256, 303, 1114112, 1114112, 1114112⟩] := by decide
+
+/-! ### sync/atomic -/
+
+theorem swap_spec {w : Nat} (c n : BitVec w) : swap c n = (n, c) := rfl
+
+/-- CompareAndSwap: swaps exactly when the cell holds `old`; otherwise the cell is untouched -/
+theorem cas_spec {w : Nat} (c o n : BitVec w) :
+    ((cas c o n).2 = true ↔ c = o) ∧ (c = o → (cas c o n).1 = n) ∧ (c ≠ o → (cas c o n).1 = c) := by
+  unfold cas; by_cases h : c = o <;> simp [h]
+
+/-- Add: the new value is stored and returned; it is the sum modulo 2^w — unsigned and two's complement reading -/
+theorem add_wraps {w : Nat} (c d : BitVec w) :
+    (add c d).1 = (add c d).2 ∧ (add c d).2.toNat = (c.toNat + d.toNat) % 2 ^ w ∧
+    (add c d).2.toInt = (c.toInt + d.toInt).bmod (2 ^ w) := by
+  refine ⟨rfl, ?_, ?_⟩
+  · simp [add, BitVec.toNat_add]
+  · simp [add, BitVec.toInt_add]
+
+theorem load_store_spec {w : Nat} (c v : BitVec w) : load c = (c, c) ∧ store c v = v := ⟨rfl, rfl⟩
+
+/-- `Value.Store` of the override = upstream value.go, for every current content and argument -/
+theorem value_store_eq (v new : Iface) : vStore v new = specStore v new := by
+  cases new <;> cases v <;> simp [vStore, specStore, checkNew, sameType]
+  split <;> simp_all
+
+/-- `Value.Swap` of the override = upstream value.go -/
+theorem value_swap_eq (v new : Iface) : vSwap v new = specSwap v new := by
+  cases new <;> cases v <;> simp [vSwap, specSwap, checkNew, sameType]
+  split <;> simp_all
+
+/-- full-strength statement for `Value.CompareAndSwap` — NOT claimed: false of the current code -/
+def value_cas_full : Prop := ∀ v old new : Iface, vCas v old new = specCas v old new
+
+/-- witness: `v.Store(1); v.CompareAndSwap(nil, 2)` — upstream returns false, the override panics -/
+theorem value_cas_counterexample : ¬ value_cas_full := by
+  intro h
+  have := h (some (1, 1)) none (some (1, 2))
+  simp [vCas, specCas, checkNew, sameType] at this
+
+/-- CompareAndSwap agrees with upstream except for `old == nil` on a non-empty Value holding new's type -/
+theorem value_cas_partial (v old new : Iface) (hx : ¬ (v ≠ none ∧ old = none ∧ sameType new v = true)) :
+    vCas v old new = specCas v old new := by
+  cases new with
+  | none => simp [vCas, specCas, checkNew]
+  | some n =>
+    cases v with
+    | none =>
+      cases old with
+      | none => simp [vCas, specCas, checkNew, sameType]
+      | some o =>
+        simp only [vCas, specCas, checkNew, sameType]
+        by_cases ht : o.1 = n.1 <;> simp [ht]
+    | some cur =>
+      cases old with
+      | none =>
+        simp only [sameType] at hx
+        have hne : ¬ (n.1 = cur.1) := by simpa using hx
+        simp [vCas, specCas, checkNew, sameType, hne]
+        intro h; exact absurd h.symm hne
+      | some o =>
+        simp only [vCas, specCas, checkNew, sameType]
+        by_cases h1 : n.1 = cur.1 <;> by_cases h2 : o.1 = n.1 <;> simp [h1, h2] <;> simp_all <;> omega
+
+example : ¬ ((some (1, 1) : Iface) ≠ none ∧ (some (1, 1) : Iface) = none ∧ sameType (some (1, 2)) (some (1, 1)) = true) := by
+  simp
+
+/-! ### nosync -/
+
+/-- for EVERY sequential history the outcomes of nosync are outcomes the sequential specification of sync allows:
+    equal values where the operation returns, a panic exactly where sync panics, blocks forever or throws;
+    the comparison stops where the specification says the goroutine is gone -/
+theorem nosync_refines_sync (h : List Op) : GV.Proofs.NoSyncRefine.Allowed {} h (run {} h) :=
+  GV.Proofs.NoSyncRefine.run_allowed {} {} GV.Proofs.NoSyncRefine.R_init h
+
+/-- one step, from any related pair of states -/
+theorem nosync_step_refines (s : State) (t : Spec) (op : Op) (h : GV.Proofs.NoSyncRefine.R s t) :
+    ∃ p ∈ GV.Spec.SyncSeq.step t op, GV.Proofs.NoSyncRefine.Matches p.1 (GV.NoSync.step s op).2 ∧
+      (p.1.terminal = true ∨ GV.Proofs.NoSyncRefine.R (GV.NoSync.step s op).1 p.2) :=
+  GV.Proofs.NoSyncRefine.step_refines s t op h
+
+/-- `Pool.Get` returns New()/nil on an empty pool, else an item that was Put and not yet handed out (and removes it) -/
+theorem pool_get_allowed (s : State) (new : Option Int) :
+    (s.pool = [] → GV.NoSync.step s (.poolGet new) = (s, .ok (.item new))) ∧
+    (s.pool ≠ [] → ∃ x, x ∈ s.pool ∧ (GV.NoSync.step s (.poolGet new)).2 = .ok (.item (some x)) ∧
+        (x, (GV.NoSync.step s (.poolGet new)).1.pool) ∈ takeAny s.pool) := by
+  constructor
+  · intro h; simp [GV.NoSync.step, h]
+  · intro h
+    obtain ⟨x, hx, hm⟩ := GV.Proofs.NoSyncRefine.takeAny_last s.pool h
+    refine ⟨x, List.mem_of_getLast? hx, ?_, ?_⟩ <;> simp [GV.NoSync.step, h, hx, hm]
+
+/-- `Once.Do(f)` runs f exactly when the Once is not done, marks it done whatever f does (return, panic, nested Do),
+    and never leaves `doing` set -/
+theorem once_runs_once (s : State) (f : OnceFn) (hd : s.onceDoing = false) :
+    (GV.NoSync.step s (.onceDo f)).1.onceDone = true ∧ (GV.NoSync.step s (.onceDo f)).1.onceDoing = false ∧
+    (s.onceDone = true → GV.NoSync.step s (.onceDo f) = (s, .ok (.ran 0))) ∧
+    (s.onceDone = false → f = .ok → (GV.NoSync.step s (.onceDo f)).2 = .ok (.ran 1)) := by
+  cases f <;> by_cases h : s.onceDone = true <;> simp [GV.NoSync.step, onceDoCore, onceBody, h, hd]
+
+/-- `Map.Range` stopped by f at its n-th call makes min(n, len) calls (at least one on a non-empty map),
+    whatever the enumeration order of the map -/
+theorem range_calls (n : Int) (l : List (Int × Int)) (hn : 0 ≤ n) :
+    rangeCalls n l 0 = if l.length = 0 then 0 else if n ≤ 1 then 1 else min n.toNat l.length := by
+  rw [GV.Proofs.NoSyncRefine.rangeCalls_closed n l 0 hn]; simp
+
 end GV.Props.C13
